@@ -6335,11 +6335,15 @@ class SQLCompiler(Compiled):
                             "sentinel selection rules should have prevented "
                             "us from getting here for this dialect"
                         )
+                        add_sentinel_cols = None
 
                 # always put the sentinel columns last.  even if they are
                 # in the returning list already, they will be there twice
                 # then.
-                returning_cols = list(returning_cols) + list(add_sentinel_cols)
+                if add_sentinel_cols is not None:
+                    returning_cols = list(returning_cols) + list(
+                        add_sentinel_cols
+                    )
 
             returning_clause = self.returning_clause(
                 insert_stmt,
